@@ -354,6 +354,11 @@ pub fn generate_c07(tier: &str, seed: u64, out: &mut Out) {
         "B: 1\n\nA: 2",
         "Package: b\nX: 1\n\nPackage: a",
         "Package: b\n\n# c\nPackage: a\nY: 2",
+        // comment lines inside a value: before the first text, between lines, last
+        "A:\n #c\n b\n",
+        "A:\n # c\n",
+        "A: x\n #c\n y\nB: z\n",
+        "A: x\n # last\nB: z\n",
     ];
     // many paragraphs / entries with equal sort keys: an unstable sort shows only beyond ~20 elements
     let mut many_paras = String::new();
